@@ -49,7 +49,7 @@ def run(tier, replay):
     # a seeded "random" long message for the streaming machine (kind 1 stream), plus RFC TEST3 in thorough
     long_len = rnd.randrange(700000, 1048577) if thorough else rnd.randrange(9000, 20000)
     long_cfg = os.path.join(wd, "Gen_Sha1_long.cfg")
-    sha1_long_cfg(long_cfg, [long_len] + ([1000000, 1048576, 65536] if thorough else []), [1, 4] if thorough else [1])
+    sha1_long_cfg(long_cfg, [long_len] + ([1000000, 65536] if thorough else []), [1, 4] if thorough else [1])
 
     # (name, module, cfg, workers, kind, required actions / expected violation, heap)
     jobs = [
@@ -57,7 +57,7 @@ def run(tier, replay):
         ("sha1 mutation PadFits56", "MC_Sha1.tla", "MC_Sha1_mut_PadFits56.cfg", 2, "sens", "invariant"),
         ("sha1 mutation LenInBytes", "MC_Sha1.tla", "MC_Sha1_mut_LenInBytes.cfg", 2, "sens", "invariant"),
         ("sha1 vectors", "MC_Sha1.tla", "Gen_Sha1_thorough.cfg" if thorough else "Gen_Sha1_quick.cfg", 8 if thorough else 4, "gen", None),
-        ("sha1 long messages %s" % ([long_len] + ([1000000, 1048576, 65536] if thorough else [])), "MC_Sha1.tla", long_cfg, 8 if thorough else 1, "gen", None),
+        ("sha1 long messages %s" % ([long_len] + ([1000000, 65536] if thorough else [])), "MC_Sha1.tla", long_cfg, 8 if thorough else 1, "gen", None),
         ("base64 decoder model", "MC_Base64.tla", "MC_Base64_algo_thorough.cfg" if thorough else "MC_Base64_algo_quick.cfg", 4, "mc", ["Alg_Group", "Alg_Reject", "Alg_End"]),
         ("base64 dev B64PlusSlashShift", "MC_Base64.tla", "MC_Base64_dev_B64PlusSlashShift.cfg", 2, "sens", "invariant"),
         ("base64 dev B64PadPanic", "MC_Base64.tla", "MC_Base64_dev_B64PadPanic.cfg", 2, "sens", "invariant"),
